@@ -81,7 +81,7 @@ CHECKS = {
         category="other",
         text="Necessary conditions only: finality is transferred per state when the automaton is rebuilt and every inserted test case marks its last "
              "state final; every regex metacharacter (oracle: regex_syntax::is_meta_character of the locked version) is escaped per occurrence in literals "
-             "and in bracket classes; the single-code-point test that licenses bracket classes and group omission counts chars and measures every unit (CNT-1/2); the partition refinement has the shape of Hopcroft's algorithm and runs to the fixpoint (MIN-1..6); reader and remover of common prefixes/suffixes agree on positions (SUB-1); the union's necessary conditions hold (UNI-1..4: class merge only for single code points, `x?` from the non-empty side, prefix/suffix re-attached on the right side, an alternative dropped only when absent, equal or included per a verified class table); the first char of a grapheme stands for it only under a single-code-point test (FCH-1); the single-code-point predicate is exact (SCP-1), the trie lookup reuses an edge only under equal maxima (LBL-3), build() does not consume the test cases (HIS-2); a grapheme's own text is printed only where it was escaped and the literal printer escapes on every path (ESC-4, ESCP-2); under (?x) every ignored character is rewritten in literals and in bracket classes (VWS-1/2); class tokens are substituted only per tables equal to the engine's (TAB-1/2, CLS-1); edge labels are identified by their entries, not their joined text (LBL-1/2), escaping reaches every entry and every nesting level on every path (ESC-2/3). Breaking any of them makes some test case unmatched or the pattern invalid. That minimisation, elimination and "
+             "and in bracket classes; the single-code-point test that licenses bracket classes and group omission counts chars and measures every unit (CNT-1/2); the partition refinement has the shape of Hopcroft's algorithm and runs to the fixpoint and splits a block only into two non-empty halves (MIN-1..7); reader and remover of common prefixes/suffixes agree on positions (SUB-1); the union's necessary conditions hold (UNI-1..4: class merge only for single code points, `x?` from the non-empty side, prefix/suffix re-attached on the right side, an alternative dropped only when absent, equal or included per a verified class table); the first char of a grapheme stands for it only under a single-code-point test (FCH-1); the single-code-point predicate is exact (SCP-1), the trie lookup reuses an edge only under equal maxima (LBL-3), build() does not consume the test cases (HIS-2); a grapheme's own text is printed only where it was escaped and the literal printer escapes on every path (ESC-4, ESCP-2); under (?x) every ignored character is rewritten in literals and in bracket classes (VWS-1/2); class tokens are substituted only per tables equal to the engine's (TAB-1/2, CLS-1); edge labels are identified by their entries, not their joined text (LBL-1/2), escaping reaches every entry and every nesting level on every path (ESC-2/3). Breaking any of them makes some test case unmatched or the pattern invalid. That minimisation, elimination and "
              "printing preserve membership is not decided.",
         design_ref="DESIGN.md §4 C01",
         note=TRUST + "One genuine defect is recorded as a known finding (empty string loses finality: FIN-1) because its repair contradicts three pinned tests.",
